@@ -998,6 +998,14 @@ class Rewriter:
         assert all(hasattr(x, 'lineno') and hasattr(x, 'colno') and hasattr(x, 'filename') for x in self.to_remove_nodes)
         assert all(isinstance(x, (ArrayNode, FunctionNode)) for x in self.modified_nodes)
         assert all(isinstance(x, (ArrayNode, AssignmentNode, FunctionNode)) for x in self.to_remove_nodes)
+        # A modified node inside another modified node is re-printed together
+        # with the outer one; replacing it on its own first would make the
+        # recorded end of the outer node stale.
+        def inside(a: BaseNode, b: BaseNode) -> bool:
+            return (a is not b and a.filename == b.filename and
+                    (b.lineno, b.colno) <= (a.lineno, a.colno) and
+                    (a.end_lineno, a.end_colno) <= (b.end_lineno, b.end_colno))
+        self.modified_nodes = [x for x in self.modified_nodes if not any(inside(x, y) for y in self.modified_nodes)]
         # Sort based on line and column in reversed order
         work_nodes = [{'node': x, 'action': 'modify'} for x in self.modified_nodes]
         work_nodes += [{'node': x, 'action': 'rm'} for x in self.to_remove_nodes]
